@@ -8,9 +8,10 @@ import I2P.Driver.VerifyOps
 import I2P.Driver.C16Ops
 import I2P.Driver.SpecOps
 import I2P.Driver.TwinOps
+import I2P.Driver.FailShapeOps
 open I2P.Driver
 
-def allOps : List (String × Op) := dataOps ++ kacOps ++ structOps ++ timeOps ++ baseOps ++ netOps ++ verifyOps ++ c16Ops ++ specOps ++ twinOps
+def allOps : List (String × Op) := dataOps ++ kacOps ++ structOps ++ timeOps ++ baseOps ++ netOps ++ verifyOps ++ c16Ops ++ specOps ++ twinOps ++ failShapeOps
 
 def step (line : String) : String :=
   match line.trimAscii.toString.splitOn " " with
